@@ -36,11 +36,12 @@ FIT_FAULTS = (
     "type_ndarray", "type_list_ndarray", "type_dataframe", "type_none", "type_int",
     "dim_unknown", "dim_partly_unknown", "dim_partly_unknown_nocenter", "dim_empty", "dim_all", "dim_nonstring",
     "nmodes_gt_rank", "nmodes_rank_plus1", "nmodes_gt_rank_square", "nmodes_zero", "nmodes_negative", "nmodes_string", "nmodes_none", "nmodes_float_gt1",
-    "solver_unknown", "solver_unknown_dask", "alpha_negative", "samples_mismatch", "weights_ndarray",
+    "solver_unknown", "solver_unknown_dask", "alpha_negative", "samples_mismatch", "weights_ndarray", "npca_gt_rank",
 )
 TRANSFORM_FAULTS = (
     "t_type_ndarray", "t_missing_feature_dim", "t_missing_sample_dim", "t_extra_dim", "t_renamed_dim", "t_shifted_coords",
     "t_reordered_other_values", "t_reordered_same_labels", "t_fewer_features", "t_dropped_variable", "t_wrong_list_length", "t_list_too_long", "t_list_for_single", "t_dataarray_for_dataset", "t_variable_missing_feature_dim",
+    "t_missing_feature_dim_scalar_coord", "t_variable_missing_feature_dim_extra_var",
 )
 INVERSE_FAULTS = ("i_unknown_mode", "i_unknown_modes_mixed", "i_type_ndarray")
 # c_dataset_wrapping_dataarray: the SAME numbers wrapped into a one-variable Dataset for a DataArray-fitted model;
@@ -74,13 +75,17 @@ def _applicable(cls, container, fault):
         return k != "multi" and cls not in zoo.COMPLEX_INPUT_OK and not cls.startswith("Hilbert")  # complex + dask is refused for its own reason
     if fault == "weights_ndarray":
         return k != "multi"
+    if fault == "npca_gt_rank":
+        return k == "cross" or cls in ("POP", "ExtendedEOF")
     if fault == "dim_partly_unknown_nocenter":
         return k == "single" and cls not in ("ExtendedEOF", "OPA")
     if fault.startswith("t_"):
         if cls not in zoo.HAS_TRANSFORM:
             return False
-        if fault in ("t_dropped_variable", "t_dataarray_for_dataset", "t_variable_missing_feature_dim"):
+        if fault in ("t_dropped_variable", "t_dataarray_for_dataset", "t_variable_missing_feature_dim", "t_variable_missing_feature_dim_extra_var"):
             return container == "dataset"
+        if fault == "t_missing_feature_dim_scalar_coord":
+            return True
         if fault in ("t_wrong_list_length", "t_list_too_long"):
             return container == "list"
         if fault == "t_list_for_single":
@@ -113,7 +118,7 @@ def cases(tier, seed):
                 if not _applicable(cls, container, fault):
                     continue
                 # container-independent faults only once per class
-                if container != "dataarray" and (fault.startswith(("nmodes_", "solver_", "alpha_", "i_", "c_alpha", "c_scores")) or fault in ("type_none", "type_int", "dim_nonstring")):
+                if container != "dataarray" and (fault.startswith(("nmodes_", "npca_", "solver_", "alpha_", "i_", "c_alpha", "c_scores")) or fault in ("type_none", "type_int", "dim_nonstring")):
                     continue
                 out.append(dict(cls=cls, container=container, fault=fault, dseed=int(seed)))
     return out
@@ -151,6 +156,12 @@ def _mutate_transform(fault, X, rng):
         return np.asarray(first(X).to_array().values if isinstance(first(X), xr.Dataset) else first(X).values)
     if fault == "t_missing_feature_dim":
         return _map(X, lambda o: o.isel(lon=0, drop=True) if "lon" in o.dims else o.isel({o.dims[-1]: 0}, drop=True), only_first=True)
+    if fault == "t_missing_feature_dim_scalar_coord":
+        # X.isel(lon=0) / X.sel(lon=v) without drop=True: the dimension is gone, a scalar coordinate of that name stays
+        return _map(X, lambda o: o.isel(lon=0) if "lon" in o.dims else o.isel({o.dims[-1]: 0}), only_first=True)
+    if fault == "t_variable_missing_feature_dim_extra_var":
+        # a Dataset with an additional variable (a valid call) in FRONT of a fitted variable that has lost a dimension
+        return xr.Dataset({"aaa_extra": X["va"] * 2.0, "va": X["va"].isel(lon=0, drop=True), **{v: X[v] for v in X.data_vars if v != "va"}})
     if fault == "t_missing_sample_dim":
         return _map(X, lambda o: o.isel(time=0, drop=True))
     if fault == "t_extra_dim":
@@ -338,6 +349,11 @@ def run_case(case, obs):
             d2 = list(d)
             d2[1] = _map(d2[1], lambda o: o.isel(time=slice(0, n - 3)))
             expect_refusal(lambda: do_fit(d2), "fields with different sample counts")
+        elif fault == "npca_gt_rank":
+            # integer n_pca_modes above the rank of the field(s): scalar, and per-field list for cross-set models
+            expect_refusal(lambda: (lambda f: (f.scores(), f.components()))(do_fit(d, dict(kw, n_pca_modes=200, **({"use_pca": True} if (cross or base == "POP") else {})))), "n_pca_modes=200 > rank")
+            if cross:
+                expect_refusal(lambda: (lambda f: (f.scores(), f.components()))(do_fit(d, dict(kw, n_pca_modes=[2, 200], use_pca=True))), "n_pca_modes=[2, 200]: second field above its rank")
         elif fault == "weights_ndarray":
             expect_refusal(lambda: do_fit(d, weights=[np.ones(3)] * len(d)), "numpy weights")
         return
